@@ -3,6 +3,7 @@ package c16
 import (
 	"context"
 	"fmt"
+	"net"
 	"strconv"
 	"strings"
 	"time"
@@ -14,6 +15,8 @@ import (
 	"go.uber.org/fx"
 
 	proberc "github.com/sergeii/swat4master/cmd/swat4master/components/prober"
+	"github.com/sergeii/swat4master/internal/core/entities/addr"
+	"github.com/sergeii/swat4master/internal/core/entities/probe"
 	"github.com/sergeii/swat4master/internal/core/repositories"
 	"github.com/sergeii/swat4master/internal/core/usecases/probeserver"
 	"github.com/sergeii/swat4master/internal/metrics"
@@ -61,6 +64,18 @@ func runRunner(offsetSpec, initSpec string) []string {
 				parts := strings.Split(it, "|")
 				ms, _ := strconv.Atoi(parts[len(parts)-1])
 				holds = append(holds, hold{key: "servers:lock:" + parts[1], ms: ms})
+				continue
+			}
+			if strings.HasPrefix(it, "junk|") {
+				// junk|<n>: n queue items whose goal this release does not know (left by another release): the runner
+				// drops each — and must go on probing with all its workers afterwards
+				n, _ := strconv.Atoi(it[5:])
+				for i := 0; i < n; i++ {
+					prb := probe.New(addr.NewForTesting(net.IPv4(9, 9, 9, byte(i+1)), 9), 9, probe.Goal(9), 1)
+					if err := p.Probes.Add(p.Context(), prb); err != nil {
+						return []string{"bad-init:" + it}
+					}
+				}
 				continue
 			}
 			if strings.HasPrefix(it, "adv") {
